@@ -32,7 +32,7 @@ def content(rnd, cls, n, split=b"<text:"):
 
 
 def config(rnd, small):
-    cfg = {"comp": rnd.choice([0, 2]), "manual": rnd.random() < 0.5, "full": rnd.choice([0, 1]),
+    cfg = {"comp": rnd.choice([0, 2]), "manual": rnd.random() < 0.5, "full": rnd.choice([0, 1, 1, 2, 3]),
            "chunk": rnd.choice([0, 1, 2, 3]), "uncomp": rnd.random() < 0.2, "dict": rnd.random() < 0.3}
     if cfg["comp"] == 2:
         cfg["level"] = rnd.choice([0, 1, 3, 9, 19, 22]) if small else rnd.choice([1, 3, 9])
